@@ -60,6 +60,21 @@ CLAIMS = {
              "price machine; cash() of every criterion (closed forms and the default search, incl. user subclasses, constants, multi-column, target) is compared with the exact "
              "certainty equivalent and with the property's own relations; Hedger.price/compute_loss are compared with the machine's exact price on scripted draws.",
         note="Trusted: TLC, torch, ScriptedPrimary double. Default-search amounts within the documented precision 1e-6."),
+    "C12": dict(
+        engine="Payoff.tla + Grid.tla / TLC -> replay",
+        technique="TLA+ contractual payoffs and clause-pipeline machine checked by TLC (orderings, registration-order fold); every terminal state replayed into payoff functions and derivative classes",
+        category=MC, design_ref="DESIGN.md 3 C12",
+        text="Contracts are written in Payoff.tla from the property text; TLC checks the ordering relations and that the clause machine (OrderedDict replacement semantics) "
+             "equals the left fold in registration order, over all lattice paths (T=1..4), strikes at/between/outside lattice points, call/put, start indices and 15 clause "
+             "sequences; each terminal state is replayed into the functional payoffs and the derivative classes over injected buffers; start indices over Grid.tla's menu.",
+        note="Trusted: TLC, torch. Prices on {1,2,4} (powers of two make ratios and log-returns exact); variance swap through ln(2)^2."),
+    "C13": dict(
+        engine="Grid.tla / TLC -> replay",
+        technique="TLA+ exact-rational time grid (Steps, TTM, start index) checked by TLC over a (dt, k, fraction) menu; replayed into all primaries and option types with float spellings of M and dt",
+        category=MC, design_ref="DESIGN.md 3 C13",
+        text="Grid.tla defines ceil(M/dt)+1, (T-1-i)dt modulo T and floor(start/dt) over rationals and TLC checks the grid invariants for M=(k+f)dt, k=1..60 (thorough ..260 and large), "
+             "10 step sizes, 5 fractions; the harness passes the floats a user would type to the real instruments and compares buffer shapes, time_to_maturity(i|None), hedge and payoff shapes.",
+        note="Trusted: TLC, torch. time to maturity within 4*eps*(T-1)*dt, exact zero at the end; BrownianStock on all cases, the other 7 primaries on every 11th."),
 }
 
 NOT_APPLICABLE = [
